@@ -10,10 +10,12 @@ import (
 
 	"github.com/alecthomas/units"
 	"github.com/arm-doe/sts/internal/verifrt"
+	"github.com/arm-doe/sts/marshal"
 )
 
 func init() {
 	verifrt.Register("H_C19_Reencode", H_C19_Reencode)
+	verifrt.Register("H_C19_DurationText", H_C19_DurationText)
 }
 
 type c19tag struct {
@@ -158,4 +160,22 @@ func H_C19_Reencode(v *verifrt.T) {
 		}
 	}
 	v.Reach("re-encoded")
+}
+
+// The text form of durations in a re-encoded configuration: the real
+// marshal.Duration.MarshalJSON -> UnmarshalJSON. (A concrete grid: the digits of
+// a duration are not modelled symbolically, so this obligation is decided by
+// execution of the listed values, not by the solver; it is here because the
+// structure-level re-encoding harness passes durations through untouched.)
+func H_C19_DurationText(v *verifrt.T) {
+	grid := []time.Duration{0, 1, 400 * time.Millisecond, 1500 * time.Millisecond, 59*time.Second + 999999999,
+		time.Hour + 2*time.Minute + 3*time.Second + 4, 1000 * time.Hour, 90 * time.Second}
+	d := grid[v.Choose("duration", len(grid))]
+	b, err := marshal.Duration{Duration: d}.MarshalJSON()
+	v.Assert(err == nil, "C19 a duration is encoded without error")
+	var back marshal.Duration
+	err = back.UnmarshalJSON(b)
+	v.Assert(err == nil, "C19 an encoded duration is parsed without error")
+	v.Assert(back.Duration == d, "C19 a duration survives encoding to JSON and parsing again exactly (sub-second values included)")
+	v.Reach("round-trip")
 }
